@@ -4,6 +4,7 @@ loose and tight radii — with the executable form of the clauses as monitor:
   box    sl - xopt <= d <= su - xopt componentwise, exactly (IEEE comparison, no tolerance)
   grad   returned gradient == g + H d   (relative 1e-8)
   norm   ||d|| <= delta * (1 + 1e-8)
+  dec    g.d + 1/2 d.H d <= 0 (relative 1e-10): the step does not increase the quadratic model
 Which clause is watched follows from the obligation name.   argv[1]: JSON {obligation, model, meta};  prints one JSON line."""
 import sys, json, warnings
 import numpy as np
@@ -62,6 +63,15 @@ def instances(rng):
             sl[i] = xopt[i] - delta
         H = np.zeros((n, n)) if trial % 2 else 1e-3 * np.eye(n)
         yield xopt, g, H, sl, su, delta
+    for trial in range(600):    # a bound stops the first conjugate-gradient step, the fixed variable dominates the gradient, the radius is loose (restart of the method)
+        n = int(rng.integers(2, 5))
+        xopt = np.zeros(n)
+        g = -np.abs(rng.normal(size=n)) - 0.5
+        j = int(rng.integers(0, n)); g[j] *= 3.0
+        sl, su = xopt - 100.0, xopt + 100.0
+        su[j] = float(rng.uniform(0.05, 0.5))
+        H = np.eye(n) * float(rng.choice([0.5, 1.0, 2.0])) if trial % 2 else np.eye(n) + 0.1 * np.ones((n, n))
+        yield xopt, g, H, sl, su, 100.0
     for trial in range(1500):
         n = int(rng.integers(1, 7))
         xopt = rng.normal(size=n)
@@ -79,7 +89,8 @@ try:
     req = json.loads(sys.argv[1]) if len(sys.argv) > 1 else {}
     name = (req.get('obligation') or '').lower()
     watch = [w for w, keys in (('box', ('box exactly', 'fixed at its', 'not nan', 'output of the final clip', 'd_within_bounds')), ('grad', ('gradient', 'gnew', 'hred')),
-                               ('norm', ('norm', 'trust-region budget', 'delsq', 'radius'))) if any(k in name for k in keys)] or ['box', 'grad', 'norm']
+                               ('norm', ('norm', 'trust-region budget', 'delsq', 'radius', '(n1)', '(n2)')),
+                               ('dec', ('quadratic model', 'orthogonal', 'conjugate-gradient step', '(q)', '(o)'))) if any(k in name for k in keys)] or ['box', 'grad', 'norm', 'dec']
     from dfols.trust_region import trsbox
     rng = np.random.default_rng(0)
     for xopt, g, H, sl, su, delta in instances(rng):
@@ -97,6 +108,10 @@ try:
                 bad = 'returned gradient differs from g + H d by %.3g (relative)' % err
         if bad is None and 'norm' in watch and np.linalg.norm(d) > delta * (1 + 1e-8):
             bad = '||d|| = %.10g exceeds delta = %g' % (float(np.linalg.norm(d)), delta)
+        if bad is None and 'dec' in watch:
+            q = float(g @ d + 0.5 * d @ (H @ d))
+            if q > 1e-10 * (1.0 + abs(float(g @ d)) + abs(float(d @ (H @ d)))):
+                bad = 'the step increases the quadratic model: g.d + 1/2 d.H d = %.6g > 0' % q
         if bad:
             out.update(reproduced=True, watched=watch, inputs={'xopt': xopt.tolist(), 'g': g.tolist(), 'H': H.tolist(), 'sl': sl.tolist(), 'su': su.tolist(), 'delta': delta},
                        observed=bad, call='dfols.trust_region.trsbox(xopt, g, H, sl, su, delta, use_fortran=False)')
